@@ -95,6 +95,12 @@ struct C16 : Scenario {
 		o.bad_crc_sometimes = true;
 		o.full_payload_sometimes = rng.chance(1, 10);
 		gen_tree(rng, o, p.members);
+		if (rng.chance(1, 8)) {
+			// the last member declares far more compressed data than the input holds (2 GiB and beyond included)
+			static const int64_t big[] = {0x7fffffffLL, 0x80000000LL, 0x80000001LL, 0xffffffffLL, 0xfffffff0LL, 0x90000000LL, 100000, 0x7ffffff0LL};
+			Member &lm = p.members.back();
+			if (lm.kind == 'f') { lm.packed = big[rng.below(8)]; p.sets("huge_packed", "1"); }
+		}
 		Task t;
 		BuiltArchive a0 = build_archive(p);
 		if (rng.chance(1, 3)) t.trunc = (int64_t) rng.below(a0.bytes.size() + 1);   // relative to A; shifted by the prefix at run time
@@ -265,6 +271,7 @@ struct C16 : Scenario {
 		if (plen <= 64) count(strf("probe.prefix_len_%02zu", plen));
 		if (plen > 200000) count("probe.prefix_near_256k");
 		if (base.trunc >= 0) count("probe.truncated_archive");
+		if (p.gets("huge_packed") == "1") count("probe.huge_packed_last_member");
 		if (r0.H.empty()) count("probe.no_member_found");
 		res.trace = finish_trace();
 		return res;
@@ -313,6 +320,30 @@ struct C13 : Scenario {
 			static const int64_t dl[] = {4 << 20, 1 << 20, 65536, 100000, 1 << 16};
 			p.seti("declared", dl[rng.below(5)]);
 			p.sets("eod", rng.chance(1, 2) ? "short" : "zero");
+			return p;
+		}
+		if (fam == 1) {
+			// many small members of the methods with the largest decoder states, all decoded: heap must not grow with the
+			// number of members handled (one fixed allocation per decoder, released when the reader moves on)
+			p.scenario = "many_members";
+			p.sets("variant", "many");
+			int n = 10 + (int) rng.below(31);
+			TreeOpts o;
+			o.max_payload = 40;
+			o.full_payload_sometimes = false;
+			o.perms = false;
+			o.methods = {"-lhx-", "-lh7-", "-lh6-", "-lhx-", "-lh5-", "-pm2-", "-lh1-"};
+			for (int i = 0; i < n; ++i) {
+				Member m = gen_file(rng, 1 + (int) rng.below(3), "", "m" + std::to_string(i) + gen_name(rng, 4), o);
+				if (rng.chance(1, 2) && m.method != "-lh7-") m.os = 'm';   // as MacLHA flags its members (no envelope: too short)
+				p.members.push_back(m);
+			}
+			Task t;
+			for (int i = 0; i < n + 2; ++i) {
+				Op nx; nx.kind = "next"; t.ops.push_back(nx);
+				Op ck; ck.kind = rng.chance(1, 2) ? "check" : "readall"; ck.arg = 700; t.ops.push_back(ck);
+			}
+			p.tasks.push_back(t);
 			return p;
 		}
 		p.scenario = "truncation_sweep";
@@ -446,6 +477,25 @@ struct C13 : Scenario {
 		}
 		const Task &base = p.tasks[0];
 		size_t L = arch.size();
+		if (p.scenario == "many_members") {
+			for (int k = 0; k < 6 && res.ok; ++k) {
+				Task t = base;
+				apply_kind(t, KINDS[k]);
+				++evals;
+				if (!eval(p, arch, t, res, narrowed, fired)) break;
+				t.trunc = (int64_t)(L - L / 3);
+				++evals;
+				eval(p, arch, t, res, narrowed, fired);
+			}
+			g_sim.counters.clear();
+			for (auto &c : fired) g_sim.counters[c.first] = c.second;
+			g_sim.counters["evals"] = evals;
+			count("kind.variant.many_members");
+			res.ops = evals;
+			res.nontrivial = true;
+			res.trace = finish_trace();
+			return res;
+		}
 		size_t stride = L > 1500 ? (L + 1499) / 1500 : 1;
 		// fault-free run under each kind, then every truncation offset under each kind
 		for (int k = 0; k < 6 && res.ok; ++k) {
